@@ -53,7 +53,7 @@ META = {
                 "multisig scripts that repeat a public key",
                 "DER parsing strictness and ECDSA itself (C01/C02): Valid(pubkey, z, r, s) is uninterpreted on symbolic arguments"],
     "stubs": ["S256Point.verify = Valid(pubkey, z, r, s) uninterpreted when an argument is symbolic, the real routine (memoised) otherwise",
-              "PrivateKey.sign, HDPrivateKey.child memoised on their concrete arguments", "sha256/ripemd160 uninterpreted on symbolic input",
+              "S256Point.__rmul__, PrivateKey.sign, HDPrivateKey.child memoised on their concrete arguments", "sha256/ripemd160 uninterpreted on symbolic input",
               "print() empty"],
     "assumptions": ["the digest committed to by a signature whose sighash byte is not SIGHASH_ALL differs from the SIGHASH_ALL digest "
                     "(the 4-byte hash type is part of the hashed preimage; collision resistance)",
@@ -130,6 +130,22 @@ def _install(M):
         VALID_LOG.append(ok)
         return ok
     P.verify = verify
+
+    real_rmul = P.__rmul__
+    rcache = {}
+    order = M.ecc.N
+
+    def rmul(self, coefficient):
+        if not _plain(coefficient) or self.x is None:
+            return real_rmul(self, coefficient)
+        k = (self.x.num, self.y.num, coefficient % order)
+        if k not in rcache:
+            r = real_rmul(self, coefficient)
+            rcache[k] = None if r.x is None else (r.x.num, r.y.num)
+            return r
+        v = rcache[k]
+        return real_rmul(self, 0) if v is None else type(self)(v[0], v[1])
+    P.__rmul__ = rmul
 
     K = M.ecc.PrivateKey
     real_sign = K.sign
@@ -942,63 +958,86 @@ def spec_final_input(kind, sigs_in_script_order, m, sec, redeem_raw, witness_raw
     return [redeem_raw], [b""] + use + [witness_raw]
 
 
-def workflow(M, kind, m, n, n_in, subset, thorough_orders=True):
+ALL_SECTIONS = ("create", "sign-order", "combine-order", "reload", "finalize", "structure", "verify", "final-reload", "final-order", "create-back")
+
+
+def _msg(e):
+    return f"{type(e).__name__}: {(str(e).strip().splitlines() or [''])[0][:60]}"
+
+
+def workflow(M, kind, m, n, n_in, subset, sections=ALL_SECTIONS):
     """the whole create/update/sign/combine/finalise/extract history for one subset of signers.
-    Returns a list of (label, ok) judgements and an outcome class"""
+    Returns the list of (section, label, ok) judgements and an outcome class.  `sections` limits the work (replays)."""
     J = []
     F = F0(n_in)
     P = M.psbt.PSBT
     base, err = build_lenient(M, kind, m, n, n_in, F, xpub=(n == 2))
     if err is not None:
-        J.append(("PSBT.create(validate=True) refuses a consistent wallet: " + err, False))
+        J.append(("create", "PSBT.create(validate=True) refuses a consistent wallet: " + err, False))
     raw0 = base.serialize()
     rs = roots(M, n)
     signers = [i for i in range(n) if subset[i]]
+    loadable = [None]
 
     def fresh():
         # a participant's own copy: loaded from the bytes when the library can load what it wrote
-        try:
-            return P.parse(M.BytesIO(raw0))
-        except Exception:
-            return build_lenient(M, kind, m, n, n_in, F, xpub=(n == 2))[0]
+        if loadable[0] is not False:
+            try:
+                r = P.parse(M.BytesIO(raw0))
+                loadable[0] = True
+                return r
+            except Exception:
+                loadable[0] = False
+        return build_lenient(M, kind, m, n, n_in, F, xpub=(n == 2))[0]
     # reference: sequential signing in index order on one object
     ref = fresh()
     for i in signers:
         if not ref.sign(rs[i]):
-            J.append((f"sign() reports nothing signed for cosigner {i}", False))
+            J.append(("create", f"sign() reports nothing signed for cosigner {i}", False))
     ref_raw = ref.serialize()
     perms = list(itertools.permutations(signers))
-    for perm in perms[1:]:
-        q = fresh()
-        for i in perm:
-            q.sign(rs[i])
-        J.append(("combined PSBT depends on the order in which signers sign (sequential signing)", q.serialize() == ref_raw))
-    # parallel signing, then combine in every order (left fold), and one right-nested tree
-    if signers:
+    if "sign-order" in sections:
+        for perm in perms[1:]:
+            q = fresh()
+            for i in perm:
+                q.sign(rs[i])
+            J.append(("sign-order", "combined PSBT depends on the order in which signers sign (sequential signing)", q.serialize() == ref_raw))
+    # parallel signing, then combine in every order (left fold into an unsigned copy / into the first signed copy), one right-nested tree
+    if signers and "combine-order" in sections:
+        copies = {}
+
         def signed_copy(i):
-            c = fresh()
-            c.sign(rs[i])
-            return c
+            if i not in copies:
+                c = fresh()
+                c.sign(rs[i])
+                copies[i] = c.serialize()
+            try:
+                return P.parse(M.BytesIO(copies[i]))
+            except Exception:
+                c = fresh()
+                c.sign(rs[i])
+                return c
         for perm in perms:
             acc = fresh()
             for i in perm:
                 acc.combine(signed_copy(i))
-            J.append(("combined PSBT depends on the order in which PSBTs are combined", acc.serialize() == ref_raw))
+            J.append(("combine-order", "combined PSBT depends on the order in which PSBTs are combined", acc.serialize() == ref_raw))
             acc2 = signed_copy(perm[0])
             for i in perm[1:]:
                 acc2.combine(signed_copy(i))
-            J.append(("combined PSBT depends on which signed copy the others are merged into", acc2.serialize() == ref_raw))
+            J.append(("combine-order", "combined PSBT depends on which signed copy the others are merged into", acc2.serialize() == ref_raw))
         if len(signers) == 3:
             a, b, c = (signed_copy(i) for i in signers)
             b.combine(c)
             a.combine(b)
-            J.append(("combined PSBT depends on the shape of the combine tree", a.serialize() == ref_raw))
+            J.append(("combine-order", "combined PSBT depends on the shape of the combine tree", a.serialize() == ref_raw))
     # the signed PSBT survives a round trip
-    try:
-        again = P.parse(M.BytesIO(ref_raw))
-        J.append(("serialize(parse(serialize(signed))) differs", again.serialize() == ref_raw))
-    except Exception as e:
-        J.append((f"the signed PSBT cannot be loaded again: {type(e).__name__}: {(str(e).strip().splitlines() or [""])[0][:60]}", False))
+    if "reload" in sections:
+        try:
+            again = P.parse(M.BytesIO(ref_raw))
+            J.append(("reload", "serialize(parse(serialize(signed))) differs", again.serialize() == ref_raw))
+        except Exception as e:
+            J.append(("reload", "the signed PSBT cannot be loaded again: " + _msg(e), False))
     # finalise + extract
     expect = len(signers) >= m
     sig_tables = [dict(pi.sigs) for pi in ref.psbt_ins]
@@ -1010,74 +1049,82 @@ def workflow(M, kind, m, n, n_in, subset, thorough_orders=True):
         ftx = ref.final_tx()
         ok, why = True, ""
     except Exception as e:
-        ok, why, ftx = False, f"{type(e).__name__}: {(str(e).strip().splitlines() or [""])[0][:60]}", None
+        ok, why, ftx = False, _msg(e), None
     if ok != expect:
-        J.append((f"finalize+final_tx {'succeeds' if ok else 'fails (' + why + ')'} with {len(signers)} of {n} signers, threshold {m}", False))
+        J.append(("finalize", f"finalize+final_tx {'succeeds' if ok else 'fails (' + why + ')'} with {len(signers)} of {n} signers, threshold {m}", False))
     else:
-        J.append(("threshold", True))
+        J.append(("finalize", "threshold", True))
     if ok:
         ftx_raw = ftx.serialize()
-        # independent structure oracle
-        for k, ti in enumerate(ftx.tx_ins):
-            secs = [named(M, i, "m/0/%d" % k).sec() for i in range(n)]
-            ordered = [sig_tables[k][s] for s in secs if s in sig_tables[k]]
-            want_ss, want_wit = spec_final_input(kind, ordered, m, secs[0], scripts[k][0], scripts[k][1])
-            got_wit = list(ti.witness.items) if ftx.segwit else []
-            J.append((f"final scriptSig/witness of input {k} is not the standard {kind} spend",
-                      list(ti.script_sig.commands) == want_ss and got_wit == want_wit))
-        # the extracted transaction verifies (fresh parse, UTXO data re-attached)
         T = M.tx
-        v = T.Tx.parse(M.BytesIO(ftx_raw), network="mainnet")
-        for k, ti in enumerate(v.tx_ins):
-            prev = prev_tx_of(M, kind, m, n, k, F["in_amt"][k])
-            ti._value, ti._script_pubkey = prev.tx_outs[0].amount, prev.tx_outs[0].script_pubkey
-        J.append(("extracted transaction does not verify", all(v.verify_input(k) for k in range(len(v.tx_ins)))))
-        J.append(("extracted transaction spends other outpoints/outputs than the PSBT's", v.hash() == base.tx_obj.hash()))
-        # the finalised PSBT round-trips and the extraction does not depend on the history
-        try:
-            fin = P.parse(M.BytesIO(fraw))
-            J.append(("serialize(parse(serialize(finalised))) differs", fin.serialize() == fraw))
-            J.append(("final transaction depends on serialisation history", fin.final_tx().serialize() == ftx_raw))
-        except Exception as e:
-            J.append((f"the finalised PSBT cannot be loaded again: {type(e).__name__}: {(str(e).strip().splitlines() or [""])[0][:60]}", False))
-        for perm in perms[1:3]:
-            q = fresh()
-            for i in perm:
-                q.sign(rs[i])
+        if "structure" in sections:
+            # independent structure oracle
+            for k, ti in enumerate(ftx.tx_ins):
+                secs = [named(M, i, "m/0/%d" % k).sec() for i in range(n)]
+                ordered = [sig_tables[k][s] for s in secs if s in sig_tables[k]]
+                want_ss, want_wit = spec_final_input(kind, ordered, m, secs[0], scripts[k][0], scripts[k][1])
+                got_wit = list(ti.witness.items) if ftx.segwit else []
+                J.append(("structure", f"final scriptSig/witness of input {k} is not the standard {kind} spend",
+                          list(ti.script_sig.commands) == want_ss and got_wit == want_wit))
+        if "verify" in sections:
+            # the extracted transaction verifies (fresh parse, UTXO data re-attached) and is the PSBT's transaction
+            v = T.Tx.parse(M.BytesIO(ftx_raw), network="mainnet")
+            for k, ti in enumerate(v.tx_ins):
+                prev = prev_tx_of(M, kind, m, n, k, F["in_amt"][k])
+                ti._value, ti._script_pubkey = prev.tx_outs[0].amount, prev.tx_outs[0].script_pubkey
+            J.append(("verify", "extracted transaction does not verify", all(v.verify_input(k) for k in range(len(v.tx_ins)))))
+            J.append(("verify", "extracted transaction spends other outpoints/outputs than the PSBT's",
+                      spec_unsigned_tx(*fields_of(v)) == spec_unsigned_tx(*fields_of(base.tx_obj))))
+        if "final-reload" in sections:
             try:
-                q.finalize()
-                J.append(("final transaction depends on the signing order", q.final_tx().serialize() == ftx_raw))
+                fin = P.parse(M.BytesIO(fraw))
+                J.append(("final-reload", "serialize(parse(serialize(finalised))) differs", fin.serialize() == fraw))
+                J.append(("final-reload", "final transaction depends on serialisation history", fin.final_tx().serialize() == ftx_raw))
             except Exception as e:
-                J.append((f"finalize after signing order {perm} raises {type(e).__name__}", False))
-        # feeding the signed transaction back into PSBT.create: embedded transaction stays unsigned / non-witness
-        try:
-            back = P.create(ftx)
-            J.append(("PSBT.create(final tx): embedded transaction is not the non-witness serialisation with empty scriptSigs",
-                      bool(embedded_ok(back.serialize(), base.tx_obj))))
-        except Exception as e:
-            J.append((f"PSBT.create(final tx) raises {type(e).__name__}: {(str(e).strip().splitlines() or [""])[0][:60]}", False))
+                J.append(("final-reload", "the finalised PSBT cannot be loaded again: " + _msg(e), False))
+        if "final-order" in sections:
+            for perm in perms[1:3]:
+                q = fresh()
+                for i in perm:
+                    q.sign(rs[i])
+                try:
+                    q.finalize()
+                    J.append(("final-order", "final transaction depends on the signing order", q.final_tx().serialize() == ftx_raw))
+                except Exception as e:
+                    J.append(("final-order", f"finalize after signing order {perm} raises {type(e).__name__}", False))
+        if "create-back" in sections:
+            # feeding the signed transaction back into PSBT.create: embedded transaction stays unsigned / non-witness
+            try:
+                back = P.create(ftx)
+                J.append(("create-back", "PSBT.create(final tx): embedded transaction is not the non-witness serialisation with empty scriptSigs",
+                          bool(embedded_ok(back.serialize(), base.tx_obj))))
+            except Exception as e:
+                J.append(("create-back", "PSBT.create(final tx) raises " + _msg(e), False))
     return J, ("final" if ok else "refused")
 
 
-def _threshold_path(kind, m, n, n_in):
+_REPORTED = set()
+
+
+def _threshold_path(kind, m, n, n_in, sections):
     M = mods()
     subset = [sym_bool(f"signer{i}") for i in range(n)]
-    w = lambda env: {"kind": kind, "m": m, "n": n, "n_in": n_in, "subset": [bool(env[f"signer{i}"]) for i in range(n)]}  # noqa
-    J, cls = workflow(M, kind, m, n, n_in, subset)
-    seen = set()
-    for label, ok in J:
+    J, cls = workflow(M, kind, m, n, n_in, subset, sections)
+    for section, label, ok in J:
         if ok:
             check(True, label)
-        elif label not in seen:
-            seen.add(label)
-            check(False, label, witness=w)
+        elif label not in _REPORTED:
+            _REPORTED.add(label)  # one witness per judgement and obligation (every path would repeat it)
+            check(False, label, witness=lambda env: {"kind": kind, "m": m, "n": n, "n_in": n_in, "section": section,  # noqa
+                                                     "subset": [bool(env[f"signer{i}"]) for i in range(n)]})
     return (cls, sum(subset) >= m)
 
 
-def ob_threshold(kind, m, n, n_in):
-    r = sym_run(lambda: _threshold_path(kind, m, n, n_in), max_violations=40)
+def ob_threshold(kind, m, n, n_in, create_back=False):
+    sections = tuple(x for x in ALL_SECTIONS if x != "create-back" or create_back)
+    r = sym_run(lambda: _threshold_path(kind, m, n, n_in, sections))
     if not r["violations"]:
-        for e in ([("final", True), ("refused", False)] if True else []):
+        for e in (("final", True), ("refused", False)):
             if repr(e) not in r["classes"]:
                 r["inconclusive"].append(f"reachability twin: outcome {e!r} never reached")
     r["sample"] = {"wallet": f"{kind} {m}-of-{n}", "inputs": n_in, "signers": "symbolic subset", "orders": "all permutations of signing and combining"}
@@ -1086,12 +1133,14 @@ def ob_threshold(kind, m, n, n_in):
 
 def replay_threshold(w):
     M = mods(True)
-    J, cls = workflow(M, w["kind"], w["m"], w["n"], w["n_in"], w["subset"])
-    bad = [label for label, ok in J if not ok]
+    sec = w.get("section")
+    sections = ALL_SECTIONS if sec is None else (sec,)
+    J, cls = workflow(M, w["kind"], w["m"], w["n"], w["n_in"], w["subset"], sections)
+    bad = [label for _, label, ok in J if not ok]
     label = w.get("label")
-    hit = [b for b in bad if b == label] or bad
-    return {"violated": bool(bad) and (label in bad or label is None),
-            "observed": f"{w['kind']} {w['m']}-of-{w['n']} signers={w['subset']}: " + ("; ".join(hit[:3]) if bad else f"all judgements hold ({cls})")}
+    return {"violated": label in bad if label is not None else bool(bad),
+            "observed": f"{w['kind']} {w['m']}-of-{w['n']}, {w['n_in']} input(s), signers={w['subset']}: " +
+                        ("; ".join(([b for b in bad if b == label] or bad)[:3]) if bad else f"all judgements hold ({cls})")}
 
 
 # ---------------------------------------------------------------------------------------- O5 invalid partial signature at load
@@ -1104,6 +1153,11 @@ def make_signed_raw(M, kind, m, n, utxo, nsym):
         add_both_utxos(M, p, kind, m, n, F)
     sign_first(M, p, n, nsym)
     pi = p.psbt_ins[0]
+    if kind == "p2sh-p2wpkh":
+        # without the BIP32 derivation records: with them the library cannot load this wallet kind at all (reported by O2/O4)
+        pi.named_pubs = {}
+        for po in p.psbt_outs:
+            po.named_pubs = {}
     if utxo == "both" and kind in SEGWIT_KINDS:
         # keep both records in the bytes (the library's serialiser writes only one): splice the witness UTXO pair in by hand
         raw = p.serialize()
@@ -1251,13 +1305,14 @@ def obligations(tier):
                                                                                                   ("gunk1", "out.unk0", "xpub0"))}, replay="combine", budget_s=900))
     for kind in KINDS:
         if kind in SINGLE:
-            obs.append(Ob("O4-threshold", ob_threshold, {"kind": kind, "m": 1, "n": 1, "n_in": 1}, replay="threshold", budget_s=900))
+            obs.append(Ob("O4-threshold", ob_threshold, {"kind": kind, "m": 1, "n": 1, "n_in": 1, "create_back": True}, replay="threshold", budget_s=900))
             if kind == "p2wpkh" or not q:
                 obs.append(Ob("O4-threshold", ob_threshold, {"kind": kind, "m": 1, "n": 1, "n_in": 3}, replay="threshold", budget_s=900))
             continue
         for n in (1, 2, 3):
             for m in range(1, n + 1):
-                obs.append(Ob("O4-threshold", ob_threshold, {"kind": kind, "m": m, "n": n, "n_in": 1}, replay="threshold", budget_s=900))
+                obs.append(Ob("O4-threshold", ob_threshold, {"kind": kind, "m": m, "n": n, "n_in": 1, "create_back": (m, n) == (2, 3)}, replay="threshold",
+                              budget_s=900))
                 if (m, n) == (2, 2) or (not q and n > 1):
                     obs.append(Ob("O4-threshold", ob_threshold, {"kind": kind, "m": m, "n": n, "n_in": 2}, replay="threshold", budget_s=1500))
     for kind in KINDS:
